@@ -207,6 +207,10 @@ def moments_probe(seed, n_sets):
         mask = [rng.random() < 0.7 for _ in range(n)] if t % 2 else None
         if mask is not None and not any(mask): mask[0] = True
         reqs.append({"op": "moments", "gens": gens, "anchor": [0, 0, 0], "width": w, "dim": d, "periodic": bool(t % 4 == 1), "mask": mask})
+    # single generators, also exactly on a wall / edge / corner of a reflective box: every wall face must be fed
+    for d in (3, 2):
+        for g in ([0.3, 0.4, 0.6], [0.0, 0.4, 0.6], [1.0, 0.0, 0.6], [0.0, 0.0, 0.0]):
+            reqs.append({"op": "moments", "gens": [[g[0], g[1], g[2] if d == 3 else 0.0]], "anchor": [0, 0, 0], "width": [1.0, 1.0, 1.0], "dim": d, "periodic": False, "mask": None})
     import json, subprocess
     exe, errs = build_downstream(True)
     if exe is None: exe, errs = build_downstream(False)
@@ -226,6 +230,9 @@ def moments_probe(seed, n_sets):
 def run(tier, seed):
     obs, fns = decomposition_obligations("C14")
     o2, f2 = lemma_obligations("C14"); obs += o2; fns += f2
+    # the symmetric variant feeds exactly the faces the tessellation stores (same contract as C13 / C07)
+    from . import rules
+    o3, f3 = rules.emit_obligations("C14", want=("sym",)); obs += o3; fns += f3
     smt.discharge_all(obs, tier)
     results = [runner.from_smt(o) for o in obs]
     results += downstream_results("C14")
